@@ -6,7 +6,7 @@ use crate::model::*;
 use crate::runner::*;
 use crate::util::*;
 use proptest::prelude::*;
-use rust_dsymbols::derived::{as_dset, as_dsym, as_partial_dsym};
+use rust_dsymbols::derived::{as_dset, as_dsym, as_partial_dsym, build_set, build_sym_using_ms, build_sym_using_vs, canonical, dual, minimal_image, oriented_cover, subsymbol};
 use rust_dsymbols::dsets::{DSet, PartialDSet, Sign, SimpleDSet};
 use rust_dsymbols::dsyms::{DSym, PartialDSym, SimpleDSym};
 use serde_json::{json, Value};
@@ -280,6 +280,111 @@ fn check_predicates<T: DSet>(t: &T, ds: &DS, name: &str) -> Result<(), String> {
     Ok(())
 }
 
+/// a value returned by one of the crate's constructors must answer every query according to the
+/// definitions applied to its own tables (orbit lengths by walking, m = r * v, constancy on orbits),
+/// also after conversion, cloning and a round trip through its text
+fn check_self_consistent(y: &PartialDSym, name: &str) -> Result<DS, String> {
+    let m = DS::from_dsym(y);
+    ensure!(m.is_complete() && m.ops_are_involutions(), "{}: operations of the returned value are not involutions on 1..size", name);
+    ensure!(m.v_consistent() && (0..m.dim).all(|i| (1..=m.size).all(|d| m.v[i][d] >= 1)), "{}: branching numbers of the returned value are undefined or not constant on an orbit", name);
+    check_dset_queries(y, &m, name, true)?;
+    check_dsym_queries(y, &m, name)?;
+    let s = SimpleDSym::from(y.clone());
+    check_dsym_queries(&s, &m, &format!("SimpleDSym({})", name))?;
+    check_predicates(y, &m, name)?;
+    Ok(m)
+}
+
+/// a derived value with an exact model: tables equal the model's, and r / v / m follow them
+fn check_exact(y: &PartialDSym, exp: &DS, name: &str, of: &DS) -> Result<(), String> {
+    let m = DS::from_dsym(y);
+    ensure!(m == *exp, "{} of {} is {}, expected {}", name, of.short(), m.short(), exp.short());
+    check_dsym_queries(y, exp, name)
+}
+
+/// derived values: the output of one public constructor fed into the queries and into other constructors
+fn check_derived(c: &Query, psym: &PartialDSym, ssym: &SimpleDSym, obs: &mut Obs) -> Result<(), String> {
+    let ds = &c.ds;
+    let n = ds.dim;
+    // dual: exact model
+    let du = guarded(|| dual(psym)).map_err(|m| format!("dual panics: {}", m))?;
+    check_exact(&du, &ds.dual(), "dual(PartialDSym)", ds)?;
+    let du2 = dual(ssym);
+    ensure!(DS::from_dsym(&du2) == ds.dual(), "dual(SimpleDSym) is {}, expected {}", DS::from_dsym(&du2).short(), ds.dual().short());
+    let back = dual(&SimpleDSym::from(du.clone()));
+    check_exact(&back, ds, "dual(dual(x))", ds)?;
+    // build_* with the model's tables: exact model
+    let set = guarded(|| build_set(ds.size, n, |i, d| Some(ds.op[i][d]))).map_err(|m| format!("build_set panics: {}", m))?;
+    let by_v = build_sym_using_vs(set.clone(), |i, d| Some(ds.v[i][d]));
+    check_exact(&by_v, ds, "build_sym_using_vs with the tables", ds)?;
+    let by_m = build_sym_using_ms(set, |i, d| Some(ds.m(i, d)));
+    check_exact(&by_m, ds, "build_sym_using_ms with the degrees", ds)?;
+    // subsymbol: exact model (order-preserving relabelling of the component)
+    let mut subsets: Vec<(Vec<usize>, usize)> = vec![];
+    if c.indices.is_empty() {
+        for s in subsets_of(n + 1).into_iter().filter(|s| s.len() >= 2) {
+            subsets.push((s.clone(), 1));
+            subsets.push((s, ds.size));
+        }
+    } else {
+        let idx: Vec<usize> = c.indices.iter().cloned().filter(|&i| i <= n).collect::<BTreeSet<_>>().into_iter().collect();
+        // a D-set has dimension >= 1 (PartialDSet::new asserts it), so a subsymbol needs two indices
+        if idx.len() >= 2 {
+            for &s in &c.seeds {
+                if s >= 1 && s <= ds.size {
+                    subsets.push((idx.clone(), s));
+                }
+            }
+        }
+    }
+    let pick = c.hash64() as usize;
+    let nsub = subsets.len().max(1);
+    for (idx, seed) in (0..subsets.len().min(3)).map(|k| &subsets[(pick + k * (nsub / 3).max(1)) % nsub]) {
+        let comp = ds.component(idx, *seed);
+        let mut lab = vec![0usize; ds.size + 1];
+        for (k, &d) in comp.iter().enumerate() {
+            lab[d] = k + 1;
+        }
+        let mut exp = DS::new(idx.len() - 1, comp.len());
+        for (k, &i) in idx.iter().enumerate() {
+            for &d in &comp {
+                exp.op[k][lab[d]] = lab[ds.op[i][d]];
+            }
+        }
+        for k in 0..idx.len() - 1 {
+            for &d in &comp {
+                exp.v[k][lab[d]] = model_v(ds, idx[k], idx[k + 1], d).unwrap();
+            }
+        }
+        let name = format!("subsymbol({:?}, {})", idx, seed);
+        let sub = guarded(|| subsymbol(psym, idx.iter().cloned(), *seed)).map_err(|m| format!("{} panics: {}", name, m))?;
+        check_exact(&sub, &exp, &name, ds)?;
+        check_dsym_queries(&SimpleDSym::from(sub.clone()), &exp, &format!("SimpleDSym({})", name))?;
+        let sub2 = subsymbol(ssym, idx.iter().cloned(), *seed);
+        ensure!(DS::from_dsym(&sub2) == exp, "{} of the SimpleDSym {} is {}, expected {}", name, ds.short(), DS::from_dsym(&sub2).short(), exp.short());
+        obs.classify(comp.len() < ds.size && comp.len() > 1, "subsymbol on a proper component with > 1 chambers");
+    }
+    // oriented cover, canonical form, minimal image: the returned values answer the queries consistently
+    // (that they are the right symbols is the subject of C03 - C05)
+    let oc = guarded(|| oriented_cover(psym)).map_err(|m| format!("oriented_cover panics: {}", m))?;
+    let om = check_self_consistent(&oc, "oriented_cover(x)")?;
+    ensure!(om.size == ds.size || om.size == 2 * ds.size, "oriented_cover(x) has {} chambers, x has {}", om.size, ds.size);
+    let od = dual(&oc);
+    ensure!(DS::from_dsym(&od) == om.dual(), "dual(oriented_cover(x)) is not the dual of oriented_cover(x)");
+    if ds.is_connected() && ds.size <= 300 {
+        let ca = guarded(|| canonical(ssym)).map_err(|m| format!("canonical panics: {}", m))?;
+        let cm = check_self_consistent(&ca, "canonical(x)")?;
+        ensure!(cm.size == ds.size && cm.dim == n, "canonical(x) has size / dim {} / {}", cm.size, cm.dim);
+        let mi = guarded(|| minimal_image(psym)).map_err(|m| format!("minimal_image panics: {}", m))?;
+        let mm = check_self_consistent(&mi, "minimal_image(x)")?;
+        ensure!(ds.size % mm.size == 0, "minimal_image(x) has {} chambers, x has {}", mm.size, ds.size);
+        let cd = canonical(&dual(&mi));
+        check_exact(&cd, &DS::from_dsym(&cd), "canonical(dual(minimal_image(x)))", ds)?;
+        obs.classify(mm.size < ds.size, "derived: proper minimal image");
+    }
+    Ok(())
+}
+
 fn subsets_of(n: usize) -> Vec<Vec<usize>> {
     (0u32..(1 << n)).map(|m| (0..n).filter(|k| m >> k & 1 == 1).collect()).collect()
 }
@@ -325,6 +430,7 @@ fn check_query(c: &Query, obs: &mut Obs) -> Result<(), String> {
     check_dsym_queries(&as_dsym(&sset), &dset_model, "as_dsym(SimpleDSet)")?;
     ensure!(DS::from_dsym(&conv1) == *ds, "as_partial_dsym changes the symbol");
 
+    check_derived(c, &psym, &ssym, obs)?;
     check_predicates(&pset, ds, "PartialDSet")?;
     check_predicates(&sset, ds, "SimpleDSet")?;
     check_predicates(&psym, ds, "PartialDSym")?;
